@@ -91,6 +91,11 @@ CHECKS = {
             "Templates compiled at check time (layout with children, once handle used twice, CSS class, script template in a loop, long text) are rendered by 2-3 goroutines x 1-2 renders into per-goroutine writers that yield on every Write (DefaultBufferSize 32 so renders flush often), one scenario with a writer failing midway and rendering again, and two scenarios in development mode reading the shared text-file cache (text files produced from the generator's literals, old mtimes, cache reset per execution through an overlay-added accessor). runtime/bufferpool.go, runtime/watchmode.go and the root package's pool/mutex files are bound to vsched by import rewriting, sync.Pool.Get reuse-vs-fresh is an explorer choice. Every schedule with at most 3/4 deviations: each goroutine's bytes and error equal the same render executed alone. The same render bodies also run free (8 goroutines x 1500 renders, normal and dev mode) in a -race build without rewritten files; any detector report or mismatch fails the check.",
             "The race pass is dynamic detection, not exploration; atomic steps between synchronisation operations; state-key completeness as in C19.",
             "4.14", "vsched"),
+    "C16": ("model_checking",
+            "explicit-state BFS to closure over (last compiled, current) template pairs with every transition decided by the real FSEventHandler, every lagging state confirmed by executing old code with new text; plus dev-vs-normal byte comparison on compiled literal-heavy templates",
+            "Part 1: every static-text token (both quotes, backslash, backtick, controls, CR, non-ASCII, emoji, format verbs, braces, literal backslash-n; thorough: pairs) in 6 static positions (text, constant attributes, HTML comment, style and script raw text, multi-line pre) is compiled once and rendered with TEMPL_DEV_MODE unset and =true for 2 valuations; the text files are written by the real FSEventHandler in development mode; bytes must be equal. Part 2: a product space of templates (element x dynamic attribute name incl. title/class/style/href/onclick x static text x position of a second expression: text / attribute / script / none (thorough adds comment, action, hx-on:, form/span, spacing) x order); the decision of every single-parameter edit is taken by the real handler (GoUpdated), its independence of older history is validated on two-edit histories, and a breadth-first search runs to closure over (last compiled, current) states, i.e. edit sequences of any length. Every reachable state in which the compiled version lags is executed: the compiled old version reading the text file the handler wrote for the current version must render exactly what the current version renders in normal mode (values with HTML/JS metacharacters).",
+            "Versions that do not compile are not states a watch session can run; text-file mtimes are set far in the past (the cache's 100 ms freshness shortcut is not involved).",
+            "4.16", "bfs+tgen"),
     "C17": ("model_checking",
             "explicit-state BFS over real Document objects vs byte-splice reference",
             "Every document up to 4 (quick) / 5 (thorough) bytes over {a,b,\\n}, every ordered range including positions beyond the line and document end, six replacement texts and the nil-range full replace, chained breadth-first to depth 2/3 over the resulting documents; each transition runs the real Document.Apply on a fresh instance and is compared with a byte-splice reference. Exhaustive within the bound, so every clamping/branching combination of the edit classifier is reached.",
